@@ -64,6 +64,7 @@ fn main() {
         "C12" => props::c12::run(cx),
         "C13" => props::c13::run(cx),
         "C16" => props::c16::run(cx),
+        "C17" => props::c17::run(cx),
         "C18" => props::c18::run(cx),
         "C19" => props::c19::run(cx),
         "C20" => props::c20::run(cx),
